@@ -848,7 +848,21 @@ def run_hammer_stream(prop, stream, tier, seed, workdir, scale=1):
                     if h + m_ != calls:
                         verdicts.append({"kind": "MON", "id": "C15", "episode": 0, "step": 0, "raw": rp,
                                          "text": f"MON C15 :: {calls} completed calls of {f[2]} racing with invalidations, but hits+misses = {h}+{m_} = {h + m_} (free-running threads)"})
-                    elif m_ != execs:
+                if len(f) > 7:
+                    wrong = int(f[6])
+                    if wrong:
+                        verdicts.append({"kind": "MON", "id": "C18", "episode": 0, "step": 0, "raw": rp,
+                                         "text": f"MON C18 :: {wrong} of {calls} calls of {f[2]} racing with invalidations returned a value different from the function's value for their arguments"})
+                    if f[7] != "-":
+                        untracked, orphans, dups, over, held_n = (int(x) for x in f[7].split(","))
+                        if untracked or orphans or dups or over:
+                            msg = (f"MON C18 :: after free-running calls of {f[2]} racing with invalidations the cache is inconsistent at quiescence: {untracked} stored key(s) not in the eviction queue, "
+                                   f"{orphans} queue slot(s) without entry (async), {dups} duplicate slot(s), {'over' if over else 'within'} its limit ({held_n} entries)")
+                            verdicts.append({"kind": "MON", "id": "C18", "episode": 0, "step": 0, "raw": rp, "text": msg})
+                            verdicts.append({"kind": "MON", "id": "C20", "episode": 0, "step": 0, "raw": rp, "text": msg.replace("MON C18", "MON C20")})
+                if f[5] != "-":
+                    h, m_ = (int(x) for x in f[5].split(","))
+                    if h + m_ == calls and m_ != execs:
                         verdicts.append({"kind": "MON", "id": "C15", "episode": 0, "step": 0, "raw": rp,
                                          "text": f"MON C15 :: {f[2]}: {m_} misses counted but the body ran {execs} times among {calls} calls racing with invalidations"})
                 continue
